@@ -103,7 +103,13 @@ def run(ctx):
             ev[0] == 'loop' and kind(ev[3]) == 'boolop' for ev in p.trace)
         if not has_send and not always_loops:
             fds = ('attr', msg, 'oobFDs')
-            ok = fds in p.state.falsy or any(
+
+            def is_fds(t):
+                # msg.oobFDs or getattr(msg, 'oobFDs'[, default])
+                return t == fds or (
+                    kind(t) == 'call' and t[1] == 'getattr' and
+                    t[3][:2] == (msg, C('oobFDs')))
+            ok = any(is_fds(t) for t in p.state.falsy) or any(
                 kind(c) == 'call' and c[1] == 'hasattr' and not pol
                 for c, pol in p.cond)
             ctx.ob('C20.D1', fi.qualname, 'skip-only-when-empty', ok,
